@@ -139,6 +139,20 @@ def _idx(rng, n, unit=4):
     return rng.randrange(n)
 
 
+def _maybe_reversed(rng, sl):
+    """[lo, hi, step] -> now and then the slice that walks the same items backwards ([hi-1 : lo-1 : -step],
+    with None for 'down to and including the first item')."""
+    if rng.random() >= 0.25:
+        return sl
+    lo, hi, step = sl
+    return [hi - 1, (lo - 1) if lo > 0 else None, -(step or 1)]
+
+
+def _neg(rng, i, n):
+    """Now and then the negative ordinal that denotes the same item."""
+    return i - n if rng.random() < 0.15 else i
+
+
 def _rng_pair(rng, n, unit=4):
     a = _idx(rng, n, unit)
     b = _idx(rng, n, unit)
@@ -159,11 +173,17 @@ def gen_call_3d(rng, m, kind='reader', in_range=True):
         if k == 1:
             return ['em_xline', int(m['xlines'][_idx(rng, n_xl, bs[1])])]
         if k == 2:
-            return ['em_depth', _idx(rng, n_s, 4)]
+            if rng.random() < 0.2:
+                lo, hi = _rng_pair(rng, n_s, 4)
+                return ['em_depth', _maybe_reversed(rng, [lo, min(hi, lo + 9), rng.choice([None, 2, 3])])]
+            return ['em_depth', _neg(rng, _idx(rng, n_s, 4), n_s)]
         if k == 3:
-            return ['em_trace', _idx(rng, ntr, 4)]
+            return ['em_trace', _neg(rng, _idx(rng, ntr, 4), ntr)]
         if k == 4:
-            return ['em_header', _idx(rng, ntr, 4)]
+            if rng.random() < 0.25:
+                lo, hi = _rng_pair(rng, ntr, 4)
+                return ['em_header', _maybe_reversed(rng, [lo, min(hi, lo + 6), rng.choice([None, 1, 2])])]
+            return ['em_header', _neg(rng, _idx(rng, ntr, 4), ntr)]
         if k == 5:
             return ['em_attributes', rng.choice(m['stored'] + [37]) if m['stored'] else 37]
         if k == 6:
@@ -176,7 +196,7 @@ def gen_call_3d(rng, m, kind='reader', in_range=True):
         if k == 7:
             lo, hi = _rng_pair(rng, ntr, 4)
             hi = min(hi, lo + 6)
-            return ['em_trace', [lo, hi, rng.choice([None, 1, 2])]]
+            return ['em_trace', _maybe_reversed(rng, [lo, hi, rng.choice([None, 1, 2])])]
         if k == 8:
             return _gen_em_subvolume(rng, m)
     k = rng.randrange(16)
@@ -270,9 +290,9 @@ def gen_call_2d(rng, m, kind='reader'):
     if kind == 'emulator' and rng.random() < 0.5:
         k = rng.randrange(4)
         if k == 0:
-            return ['em_trace', _idx(rng, ntr, bs[1])]
+            return ['em_trace', _neg(rng, _idx(rng, ntr, bs[1]), ntr)]
         if k == 1:
-            return ['em_header', _idx(rng, ntr, bs[1])]
+            return ['em_header', _neg(rng, _idx(rng, ntr, bs[1]), ntr)]
         if k == 2:
             return ['em_attributes', rng.choice(m['stored'] + [37]) if m['stored'] else 37]
         lo, hi = _rng_pair(rng, ntr, bs[1])
